@@ -110,6 +110,10 @@ class TaskOut(Task, N):
     def task_outputs(self, dep):
         return dep(Leaf(i=self.x))
 
+    def __len__(self):
+        # a task that is also a container (as a dataset would be): falsy for even x, the default included
+        return abs(self.x) % 2
+
     def execute(self):
         pass
 
@@ -129,6 +133,10 @@ class TaskSelf(Task, N):
 class Pre(LightweightTask, N):
     v: Param[int] = 0
     c: Param[Optional[N]]
+
+    def __bool__(self):
+        # falsy for even v, the default included: nothing in the library may depend on the truth value of a configuration
+        return abs(self.v) % 2 == 1
 
     def execute(self):
         pass
